@@ -68,7 +68,15 @@ def evaluate(model, Hcls, Icls, build, entries):
         # a functional of the C07 tier: its proximal at the designated point
         from .c07b import S
         dom = I.getattr_value(A, 'domain')
-        A = I.call(I.getattr_value(A, 'proximal'), [S('sig')], {})
+        sigarg = S('sig')
+        attrs = getattr(A, 'attrs', {})
+        if attrs.get('sigma_elem') is not None:
+            # the factory's branch for one step per point
+            from .c07b import mk_point
+            sigarg = mk_point(dom, list(attrs['sigma_elem']))
+        elif attrs.get('sigmas') is not None:
+            sigarg = list(attrs['sigmas'])
+        A = I.call(I.getattr_value(A, 'proximal'), [sigarg], {})
     dom = I.getattr_value(A, 'domain')
     ran = I.getattr_value(A, 'range')
     if isinstance(dom, NField) or not (dom == ran):
